@@ -407,7 +407,61 @@ fn judge_halves(got: &[Option<u32>], write_err: Option<String>) -> i32 {
     else { println!("REPLAY: FAILS on the real code (dropping the write half disturbed the other direction)"); 1 }
 }
 
+/// C19 hangup: the peer sends its frames and closes while data WE sent is still unread in its receive queue: the kernel then
+/// hands out the queued frames first and reports ECONNRESET on the read after them.  Every frame the peer sent must be
+/// received before the error is reported (an adapter that drops the bytes of a successful read because a LATER read failed
+/// loses whole frames).
+fn hangup_frames() -> Vec<Vec<u8>> {
+    (0..3u32).map(|i| { let mut f = format!(r#"{{"parameters":{{"n":{i}}}}}"#).into_bytes(); f.push(0); f }).collect()
+}
+fn judge_hangup(got: &[Option<u32>]) -> i32 {
+    let want: Vec<Option<u32>> = (0..3u32).map(Some).collect();
+    println!("the peer sent 3 replies and hung up with unread data of ours in its queue; received {:?}", got);
+    if got == want.as_slice() { println!("clean: every frame the peer sent was received before the reset was reported"); 0 }
+    else { println!("frames sent by the peer were LOST\nREPLAY: FAILS on the real code"); 1 }
+}
+fn hangup_tokio() -> i32 {
+    let rt = tokio::runtime::Builder::new_current_thread().enable_all().build().unwrap();
+    rt.block_on(async {
+        use tokio::io::AsyncWriteExt;
+        let (a, mut b) = tokio::net::UnixStream::pair().unwrap();
+        let mut conn = zlink_tokio::Connection::new(zlink_tokio::unix::Stream::from(a));
+        // something of ours that the peer never reads
+        let _ = conn.send_call(&zlink_tokio::Call::new(M::Big { s: "unread".into() })).await;
+        for f in hangup_frames() { b.write_all(&f).await.unwrap(); }
+        drop(b);
+        let mut got = Vec::new();
+        for _ in 0..3 {
+            match tokio::time::timeout(Duration::from_secs(10), conn.receive_reply::<HalvesP, HalvesE>()).await {
+                Ok(Ok(Ok(r))) => got.push(r.parameters().map(|p| p.n)),
+                other => { println!("receive #{} failed: {other:?}", got.len()); break; }
+            }
+        }
+        judge_hangup(&got)
+    })
+}
+fn hangup_smol() -> i32 {
+    use futures_lite::{future, AsyncWriteExt};
+    future::block_on(async {
+        let (a, b) = std::os::unix::net::UnixStream::pair().unwrap();
+        let a = async_io::Async::new(a).unwrap();
+        let mut b = async_io::Async::new(b).unwrap();
+        let mut conn = zlink_smol::Connection::new(zlink_smol::unix::Stream::from(a));
+        let _ = conn.send_call(&zlink_smol::Call::new(M::Big { s: "unread".into() })).await;
+        for f in hangup_frames() { b.write_all(&f).await.unwrap(); }
+        drop(b);
+        let mut got = Vec::new();
+        for _ in 0..3 {
+            let r = future::or(async { Some(conn.receive_reply::<HalvesP, HalvesE>().await) }, async { async_io::Timer::after(Duration::from_secs(10)).await; None }).await;
+            match r { Some(Ok(Ok(r))) => got.push(r.parameters().map(|p| p.n)), other => { println!("receive #{} failed: {:?}", got.len(), other.map(|x| x.map(|_| ()).map_err(|e| format!("{e:?}")))); break; } }
+        }
+        judge_hangup(&got)
+    })
+}
 fn main() {
+    if std::env::args().nth(1).as_deref() == Some("hangup") {
+        std::process::exit(match std::env::args().nth(2).as_deref() { Some("tokio") => hangup_tokio(), Some("smol") => hangup_smol(), _ => 2 });
+    }
     if std::env::args().nth(1).as_deref() == Some("notified") {
         let depth: usize = std::env::args().nth(3).and_then(|d| d.parse().ok()).unwrap_or(6);
         let rc = match std::env::args().nth(2).as_deref() { Some("tokio") => notified_tokio(depth), Some("smol") => notified_smol(depth), _ => 2 };
